@@ -389,7 +389,7 @@ void mc_case(Rng& rng)
 
 } // namespace
 
-std::uint64_t vfh_num_cases(bool thorough) { return thorough ? 20000 : 420; }
+std::uint64_t vfh_num_cases(bool thorough) { return thorough ? 100000 : 420; }
 
 void vfh_run_case(std::uint64_t idx, Rng& rng)
 {
